@@ -327,6 +327,7 @@ func (s *Stats) Probes(t testing.TB, run func(raw json.RawMessage) *Failure) {
 		if len(f.Probe) == 0 || string(f.Probe) == "null" {
 			continue
 		}
+		Begin(f.Probe) // a probe that takes the process down is then reported by the driver
 		fail := safeRun(run, f.Probe)
 		switch f.Status {
 		case "open":
